@@ -940,6 +940,7 @@ class Rec:
             return NS('cond_' + label, _ctor='MockCond', owner=label)
         self.ns = NS('pattern_' + label, _ctor='MockPattern', label=label, pos='POS_' + label, create_target_assignments=cta, get_comparison_node=gcn,
                      get_simple_comparison_node=gscn, get_targets=lambda: set(targets), is_irrefutable=lambda: irrefutable,
+                     can_skip_comparison=lambda: irrefutable,
                      is_simple_value_comparison=lambda: simple, is_sequence_or_mapping=lambda: False,
                      is_match_and_assign_pattern=False, is_match_value_pattern=False, is_star=False, target=None,
                      allocate_subject_temps=lambda code: None, release_subject_temps=lambda code: None, dispose_of_subject_temps=lambda code: None,
